@@ -33,11 +33,21 @@ import (
 var sampled = map[string]bool{}
 
 func wantSample(rep *report.R, class string) bool {
-	if sampled[class] || !rep.WantSample() {
+	if !counting || sampled[class] || !rep.WantSample() {
 		return false
 	}
 	sampled[class] = true
 	return true
+}
+
+// counting is false while the determinism self check replays executions, so
+// that evidence counts only explored cases.
+var counting = true
+
+func evalCase(rep *report.R, sc, outcome, nontrivial string) {
+	if counting {
+		rep.Eval(sc, outcome, nontrivial)
+	}
 }
 
 // fakeManager provides the only thing resolver.NewReconciler asks of a
